@@ -68,9 +68,11 @@ TokClasses == {"ident", "int", "float", "char", "string", "rawstring", "true", "
                "func", "if", "else", "for", "in", "import", "error", "immutable", "+=", "==", "<"}
 EndsStatement(tc) == tc \in {"ident", "int", "float", "char", "string", "rawstring", "true", "false", "undefined",
                              "break", "continue", "return", "export", "++", "--", ")", "]", "}"}
-GapKinds == {"newline", "linecomment", "blockcomment-nl", "blockcomment-then-nl", "eof", "spaces", "blockcomment-inline"}
+GapKinds == {"newline", "linecomment", "blockcomment-nl", "blockcomment-then-nl", "eof", "spaces", "blockcomment-inline",
+             "blockcomment-eof", "spaces-eof", "linecomment-eof", "blockcomments-eof", "crlf"}
 \* does the gap after a token of class tc produce a semicolon token?
-SemiInserted(tc, gap) == EndsStatement(tc) /\ gap \in {"newline", "linecomment", "blockcomment-nl", "blockcomment-then-nl", "eof"}
+SemiInserted(tc, gap) == EndsStatement(tc) /\ gap \in {"newline", "linecomment", "blockcomment-nl", "blockcomment-then-nl", "eof",
+                                                      "blockcomment-eof", "spaces-eof", "linecomment-eof", "blockcomments-eof", "crlf"}
 
 \* ---- (3) number literals ------------------------------------------------------
 Chars == {"0", "1", "7", "9", "a", "e", "f", "x", "o", "b", "p", "_", ".", "+", "-"}
